@@ -659,6 +659,33 @@ fn volume_unit(ctx: &Ctx, st: &mut Stats, clock: usize, rate: usize, ym: bool) {
         }
         prev = rms;
     }
+    // the amplitude registers implement five bits: with bit 4 clear the channel plays its 4-bit
+    // volume whatever bits 5..7 of the written byte are (an envelope that has decayed to zero is
+    // running meanwhile, so a channel wrongly handed to the envelope falls silent)
+    for (v, g) in [(15u8, 0x20u8), (9, 0x40), (3, 0x80), (12, 0xE0), (1, 0xA0), (6, 0x60)] {
+        let play = |val: u8| {
+            let mut ay = chip(clock, rate, ym, 0);
+            ay.write_register(0, 200);
+            ay.write_register(7, 0x3E);
+            ay.write_register(11, 1);
+            ay.write_register(12, 0);
+            ay.write_register(13, 0);
+            ay.write_register(8, val);
+            let (l, _) = gen(&mut ay, 4096 + 64);
+            ac_rms(&l[64..])
+        };
+        let (clean, dirty) = (play(v), play(v | g));
+        st.samples += 2 * 4160;
+        st.evals += 1;
+        if !((clean - dirty).abs() <= 1e-9 * clean.abs().max(1.0)) {
+            ctx.violation(
+                "volume-depends-on-unimplemented-bits",
+                &format!("amplitude register written with {:02x} (bit 4 clear) gives tone RMS {:.6}, written with {:02x} it gives {:.6}", v | g, dirty, v, clean),
+                w(),
+            );
+            return;
+        }
+    }
 }
 
 // ------------------------------------------------------------------------------------ mixer
